@@ -137,6 +137,20 @@ func runC01(r *ev.Run) {
 				removals++
 				r.Count("ops:remove", 1)
 				probe() // immediately after a soft delete
+				if rng.IntN(3) == 0 {
+					// update = remove + add of the same id while the tombstone is pending: only the NEW vector is live
+					v := vg.fresh()
+					if rng.IntN(4) == 0 {
+						v = cloneF32(m.raw[id])
+					}
+					hist = append(hist, histOp{Op: "re-add", ID: id, Vec: cloneF32(v)})
+					if err := idx.Add(*comet.NewVectorNodeWithID(id, cloneF32(v))); err != nil {
+						rep("flat.add-error", fmt.Sprintf("re-add of removed id %d failed: %v", id, err))
+						return
+					}
+					m.add(id, v)
+					r.Count("ops:re-add-removed-id", 1)
+				}
 			case c < 9:
 				hist = append(hist, histOp{Op: "flush"})
 				if err := idx.Flush(); err != nil {
